@@ -126,6 +126,14 @@ def r3(ctx):
             pc = [c for c in pb[0].calls_to(UB + 'pop') if not c.cleanup]
             good = bool(pc) and P.call('ic_btc_canister::state::GenericState::stable_height', P.param('state'))(e.operand(pc[0].args[1]))
             ctx.check(good, 'R3', 'pop-height-arg', pc[0] if pc else pb[0], 'pop is given the current stable height', 'pop height argument unexpected')
+            # a completed ingestion has already advanced the stable height: the pop must have produced the
+            # ingested block on every normal return (anything else traps, which rolls the round back)
+            rows = table(prog, pb[0])
+            popped = P.has(P.call(UB + 'pop', P.anything, P.anything))
+            same = P.binop('Eq', P.call('*::block_hash', popped), P.param())
+            good = bool(rows) and all(any(same(k) for k in r[2] if isinstance(k, tuple)) for r in rows)
+            ctx.check(good, 'R3', 'pop-must-yield-ingested-block', pb[0], 'pop_block returns normally only if pop produced the block that was just ingested',
+                      'pop_block can return although pop produced nothing or another block — the stable height advanced without the anchor (rows: %s)' % describe_table(rows))
 
 
 def r4(ctx):
@@ -245,6 +253,12 @@ def r6(ctx):
         good = len(ic) == 1 and not cond_exprs(prog, hb, ic[0].bb) and all(gh.dominates(ic[0].bb, r) for r in rets)
         ctx.check(good, 'R6', 'heartbeat-always-ingests', ic[0] if ic else hb, 'every heartbeat runs the stable-block ingestion first, unconditionally',
                   'the heartbeat does not run the ingestion step unconditionally (conditions: %s)' % (fmt_conds(cond_exprs(prog, hb, ic[0].bb)) if ic else 'call not found'))
+    w = ctx.fn('R6', 'ic_btc_canister::heartbeat::ingest_stable_blocks_into_utxoset')
+    if w:
+        from rules.walks import ingestion_wrapper_direct
+        good, why = ingestion_wrapper_direct(prog, w)
+        ctx.check(good, 'R6', 'heartbeat-step-is-the-ingestion-loop', w, 'the heartbeat\'s ingestion step runs state::ingest_stable_blocks_into_utxoset under no condition of its own',
+                  'the heartbeat\'s ingestion step can skip the stability decision (%s)' % why)
     rows = [r for r in table(prog, f) if P.agg(variant='Done')(r[1])]
     good = len(rows) == 1 and P.exactly(rows[0][2], [P.is_(P.call(UB + 'peek', P.anything), 'None')])
     ctx.check(good, 'R6', 'done-only-when-none', f.where(rows[0][0]) if rows else f, 'Done is returned only when peek finds no stable child', 'Done rows: %s' % describe_table(rows))
